@@ -204,11 +204,21 @@ def stepInput (ctx : String) (c : Chain) : M Chain.StepIn := do
       else pure 0
   pure { jumps := jumps, eval := e, rev := rev, fwd := fwd, logu := logu }
 
+/-- The virtual evaluations of componentwise scaling: one model call per parameter, each
+    possibly followed by density queries and a uniform (their values do not enter the
+    plumbing model; only that they happen, and how many model calls there are). -/
+def consumeVirtual (ctx : String) (c : Chain) : M Unit := do
+  for _ in List.range (Chain.extraCalls c.props) do
+    let _ ← popE s!"{ctx} (virtual move)"
+    let _ ← pullQ []
+    if (← peekTag) = "U" then let _ ← pop
+
 def ptStepInput (ci : Nat) (c : PTChain) : M PTChain.StepIn := do
   let mut ins : List Chain.StepIn := []
   let mut t := 0
   for l in c.levels do
     ins := ins ++ [← stepInput s!"chain {ci} level {t} it {l.iteration + 1}" l]
+    consumeVirtual s!"chain {ci} level {t} it {l.iteration + 1}" l
     t := t + 1
   let it' := c.iteration + 1
   let mut sw : PTChain.SweepIn := { us := [], newBetas := [] }
